@@ -6,7 +6,7 @@
     operator_table_sound cmp_probe_agrees prec_probe_agrees function_table_sound
     nodetest_table_sound axis_table_sound pred_eval_sound pred_outcome_sound
     substring_not_xpath ne_absent_not_xpath step_matches_eq_xp parser_rejects_outside
-    select_eq_xp_step select_eq_xp_chain
+    select_eq_xp_step select_eq_xp_chain parser_accepts_subset_partial
 -/
 import Genshi.Model.Path
 import Genshi.Model.PathParse
@@ -17,6 +17,7 @@ import Genshi.Lemmas.PathEval
 import Genshi.Lemmas.PathXp
 import Genshi.Lemmas.PathSelect
 import Genshi.Lemmas.PathChain
+import Genshi.Lemmas.PathParseChain
 namespace Genshi.Props.C05
 open Genshi Genshi.Path
 
@@ -169,6 +170,34 @@ theorem parser_rejects_outside :
 -- the hypotheses are satisfiable: `parent::a`, `following-sibling::a`
 example : parse "parent::a".toList = .error .syntax := by decide +kernel
 example : axisForName "following-sibling".toList = none := by decide +kernel
+
+/-- **parser_accepts_subset** (partial).
+    Full statement: every expression of the documented subset (abbreviated and unabbreviated
+    steps, the node tests, predicates over the expression grammar, unions) is parsed to the
+    AST it denotes.
+    Proved here, for paths of every length: a location path written in unabbreviated form
+    `axis::name/axis::name/…/axis::name` over the five axes, with names that are not one of
+    `*`, `.`, `[`, `|`, is parsed by the recursive-descent parser — including its habit of
+    leaving the last token unconsumed — to exactly the list of steps `(axis, LocalNameTest
+    (axis, name), [])` (token level; the tokenizer regex, abbreviated steps, the other node
+    tests, predicates and unions are covered by `decide`-checked examples below, the probes
+    `cmp_probe_agrees` / `prec_probe_agrees` and the parse correspondence with the real
+    parser on every generated and every malformed expression). -/
+theorem parser_accepts_subset_partial (steps : List (Axis × Str)) (hne : steps ≠ [])
+    (hnames : ∀ p ∈ steps, plainName p.2) :
+    parseTokens (chainTokens steps) = .ok [steps.map stepOf] :=
+  parse_chain steps hne hnames
+
+example : tokenize "child::a/descendant-or-self::b/attribute::c".toList
+    = chainTokens [(.child, ['a']), (.descendantOrSelf, ['b']), (.attribute, ['c'])] := by decide +kernel
+example : parse "a[@n<=2 and not(@m)]/b//text()[2]|.//@x:y".toList = .ok
+    [[⟨.child, .localName false ['a'],
+        [.and_ (.cmp .le (.test (.localName true ['n'])) (.num (.dec false 2 0)))
+               (.fn1 .not (.test (.localName true ['m'])))]⟩,
+      ⟨.child, .localName false ['b'], []⟩, ⟨.descendantOrSelf, .node, []⟩,
+      ⟨.child, .text, [.num (.dec false 2 0)]⟩],
+     [⟨.self, .node, []⟩, ⟨.descendantOrSelf, .node, []⟩, ⟨.attribute, .qname true ['x'] ['y'], []⟩]] := by
+  decide +kernel
 
 /-! ## Predicate evaluation -/
 
